@@ -74,7 +74,7 @@ def run(c):
     ptr = os.path.join(vf.WORK, "c11", "probe.ndjson")
     open(ptr, "w").write("\n".join(lines[:2] + [json.dumps(ev)]) + "\n")
     pv = vf.validate_trace("Trace_Term", ptr, "c11-probe", par=1)
-    c.probe("corrupted recorded event", len(pv["rejects"]) == 1)
+    c.probe("corrupted recorded event", any(r["line"] == 3 for r in pv["rejects"]))
     c.assumptions += ["the specification's Shift/Open/FV (spec/GramTerm.tla) and the named reference (spec/GramNamed.tla) state the intended meaning",
                       "terms are hole-free (the statement's scope)", "exhaustive only up to the stated size; random terms beyond"]
     c.cov["exhaustive"] = True
